@@ -713,14 +713,22 @@ class ndarray:
             return self.copy()
         return ndarray._from_cells([cast_cell(c, dt) for c in cells], self._shape, dt)
 
-    def tolist(self):
-        cells = self._cells()
+    def _rows(self, cells=None):
+        """cells as nested lists (model cells as they are: internal use)"""
+        cells = self._cells() if cells is None else cells
         if self.ndim == 0:
             return cells[0]
         if self.ndim == 1:
             return cells
         w = self._shape[1]
         return [cells[i * w:(i + 1) * w] for i in range(self._shape[0])]
+
+    def tolist(self):
+        cells = self._cells()
+        if self._dtype.kind in 'Mm':
+            # ndarray.tolist() converts to the nearest Python type: datetime64[D] -> date, [s] -> datetime, [ns] -> int ...
+            cells = [(c.item() if isinstance(c, _np.generic) else c) for c in cells]
+        return self._rows(cells)
 
     def item(self, *a):
         if a:
@@ -801,7 +809,7 @@ class ndarray:
         dt = a[0] if a else kw.get('dtype')
         if isinstance(dt, list) and self.ndim == 2 and len(dt) == self._shape[1] and _builtin_all(
                 isinstance(f, tuple) and len(f) == 2 and f[0] == '' and as_dtype(f[1]) == self._dtype for f in dt):
-            rows = self.tolist()
+            rows = self._rows()
             return ndarray._from_cells([tuple(r) for r in rows], (len(rows), 1), _np.dtype(dt))
         if self._dtype.names is not None and not isinstance(dt, list):
             dt = as_dtype(dt)
